@@ -23,7 +23,7 @@ func resZ(v uint64, panicked bool) string {
 func genC18(r *R, n int, tier string, out *Out) {
 	for i := 0; i < n; i++ {
 		var elems []*V
-		mode := r.Intn(8)
+		mode := r.Intn(9)
 		ln := r.Intn(9)
 		if r.chance(0.1) {
 			ln = 1
@@ -66,6 +66,20 @@ func genC18(r *R, n int, tier string, out *Out) {
 					elems = append(elems, vint(1+r.Intn(1000)))
 				} else {
 					elems = append(elems, vfloat(math.Abs(r.finiteFloat())+0.5))
+				}
+			case 8: // finite elements whose running product/sum overflows to an infinity before a zero or an opposite value arrives
+				tag = "overflow-then-zero"
+				switch {
+				case j < 2 || r.chance(0.3):
+					if r.chance(0.5) {
+						elems = append(elems, vfloat(pickOf(r, []float64{1e200, -1e200, math.MaxFloat64, -math.MaxFloat64, 1e308})))
+					} else {
+						elems = append(elems, vint(pickOf(r, []int{math.MaxInt64, math.MinInt64, math.MaxInt64 - 1})))
+					}
+				case r.chance(0.6):
+					elems = append(elems, pickOf(r, []*V{vint(0), vfloat(0), vfloat(math.Copysign(0, -1))}))
+				default:
+					elems = append(elems, vfloat(pickOf(r, []float64{2, -2, 0.5, -1e308, 1e-300})))
 				}
 			default: // numeric incl. non-finite (outside the theorem's domain, inside the model)
 				tag = "numeric-with-nonfinite"
